@@ -1,8 +1,10 @@
 //! `cvh <property> --tier quick|thorough [--seed N] [--widen] [--replay file]`
 //! Prints one JSON report on the last line of stdout.
+mod c03;
 mod c17;
 mod c25;
 mod e2e;
+mod frontend;
 mod ty;
 mod c27;
 mod lean;
@@ -37,6 +39,9 @@ fn main() {
                 replay = Some(args[i + 1].clone());
                 i += 1;
             }
+            other if prop == "_front" => {
+                let _ = other;
+            }
             other => {
                 eprintln!("unknown argument {other}");
                 std::process::exit(2);
@@ -54,6 +59,7 @@ fn main() {
             let out = match prop {
                 "C25" => c25::replay(&f["input"]),
                 "C17" => c17::replay(&f["input"]),
+                "C03" => c03::replay(&f["input"]),
                 "C27" => c27::replay(&f["input"]),
                 _ => "replay not implemented for this property".to_string(),
             };
@@ -68,9 +74,19 @@ fn main() {
         }
         std::process::exit(if failed { 1 } else { 0 });
     }
+    if prop == "_front" {
+        // smoke test: cvh _front <file.capy>
+        let text = std::fs::read_to_string(&args[2]).expect("file");
+        let r = frontend::with_analysis(vec![("main.capy".into(), text)], Some("main".into()), true, |a| {
+            (a.kinds(), a.any_unsafe, a.has_errors())
+        });
+        println!("{:?}", r);
+        return;
+    }
     let rep = match prop {
         "C25" => c25::run(&tier, seed, widen),
         "C17" => c17::run(&tier, seed, widen),
+        "C03" => c03::run(&tier, seed, widen),
         "C27" => c27::run(&tier, seed, widen),
         _ => {
             eprintln!("unknown property {prop}");
